@@ -233,6 +233,25 @@ theorem ElasticNet.check_ok_iff (p : Gen.C04.ElasticNet.Params) (h : Ranges.Elas
 example : Ranges.ElasticNet.Finite { penalty := .fin (1/10), l1_ratio := .fin 1, tolerance := .fin 0 } ∧ Ranges.ElasticNet.InRange { penalty := .fin (1/10), l1_ratio := .fin 1, tolerance := .fin 0 } ∧ Gen.C04.ElasticNet.check { penalty := .fin (1/10), l1_ratio := .fin 1, tolerance := .fin 0 } = .ok () := by c04_eval ElasticNet
 example : Ranges.ElasticNet.Finite { penalty := .fin (1/10), l1_ratio := .fin (3/2), tolerance := .fin 0 } ∧ ¬ Ranges.ElasticNet.InRange { penalty := .fin (1/10), l1_ratio := .fin (3/2), tolerance := .fin 0 } := by c04_eval ElasticNet
 
+/- FULL statement for the elastic net (false of model and code, finding C04-elasticnet-max-iterations-zero, open):
+     Finite p → (check p = .ok () ↔ Ranges.ElasticNet.DocRange p max_iterations)
+   `ElasticNet.check_ok_iff` above is the part that holds (the three guarded fields); what is missing is a guard
+   on `max_iterations` (documented `[1, inf)`): the guard chain cannot depend on a field it does not read. -/
+/-- witness of the failure: finite parameters outside the documented range that pass the translated check -/
+theorem ElasticNet.max_iterations_unguarded :
+    ∃ (p : Gen.C04.ElasticNet.Params) (mi : Nat), Ranges.ElasticNet.Finite p ∧
+      Gen.C04.ElasticNet.check p = .ok () ∧ ¬ Ranges.ElasticNet.DocRange p mi :=
+  ⟨{ penalty := .fin 1, l1_ratio := .fin (1/2), tolerance := .fin (1/10000) }, 0, by
+    simp [Ranges.ElasticNet.Finite, Ranges.ElasticNet.DocRange, Gen.C04.ElasticNet.check, Gen.C04.ElasticNet.guards,
+      XF.inClosed, XF.Finite] <;> norm_num [XF.zero, XF.one]⟩
+/-- with the extra hypothesis that excludes the defect the full documented range is characterised -/
+theorem ElasticNet.check_ok_iff_doc_partial (p : Gen.C04.ElasticNet.Params) (h : Ranges.ElasticNet.Finite p)
+    (mi : Nat) (hmi : 1 ≤ mi) :
+    Gen.C04.ElasticNet.check p = .ok () ↔ Ranges.ElasticNet.DocRange p mi := by
+  rw [ElasticNet.check_ok_iff p h]; simp [Ranges.ElasticNet.DocRange, hmi]
+example : Ranges.ElasticNet.DocRange { penalty := .fin 1, l1_ratio := .fin (1/2), tolerance := .fin (1/10000) } 1000 := by
+  simp [Ranges.ElasticNet.DocRange, Ranges.ElasticNet.InRange]; norm_num
+
 /-- Tweedie GLM -/
 theorem Tweedie.check_ok_iff (p : Gen.C04.Tweedie.Params) (h : Ranges.Tweedie.Finite p) :
     Gen.C04.Tweedie.check p = .ok () ↔ Ranges.Tweedie.InRange p := by
